@@ -164,6 +164,39 @@ def r2(ctx):
         first = any(vf.mentions(g, lambda x: x == ("load", HRP)) and not t for g, t in guards)
         ctx.check(vf.expr(fn, s["val"]) == ("c", 1) and first, "C13.R2", "receive:flag-set-by-first-header", s.loc(),
                   "set to true under !has_received_pdus", key="C13.R2:set")
+    # whatever the first PDU is (an Error Report as well), a header that passed the length checks uses up the first-PDU slot
+    left = []
+    ncell = 0
+    for t in range(0, 12):
+        ncell += 1
+
+        def values(pe, t=t):
+            if vf.last_field(pe) == "pdu_header.type" and vf.root_of(pe)[0] == "alloca":
+                return t
+            return None
+
+        def oracle(inst, pred, a, b, E):
+            if pred in ("ult", "ugt") and (vf.mentions(a, lambda x: isinstance(x, tuple) and x[0] == "load" and vf.last_field(x[1]) == "pdu_header.len")):
+                return False    # length within bounds
+            return None
+
+        def classify(inst, E, st_):
+            if inst.op == "call" and inst.callee == "tr_recv_all":
+                return [([], {inst.ref: flow.av_in(0)})]
+            if rfc8210.conv_kind(pdb, fn, inst) == ("header", "host"):
+                return ["=hdr:1"]
+            return None
+        outs2, _f = es.count_effects(fn, pdb, classify, None, oracle=oracle, values=values, cell={HRP: 0}, pinned=lambda pe: pe == HRP, cap=96)
+        outs2 = [o for o in outs2 if o["counts"].get("hdr") == "1"]      # a header was received and decoded
+        for o in outs2:
+            if flow.av_single(o["facts"].get(("M", HRP))) != 1:
+                left.append((t, o))
+        if not outs2:
+            raise AnalysisBroken("rtr_receive_pdu: no outcome for header type %d" % t)
+    ctx.check(not left, "C13.R2", "receive:first-header-consumes-the-slot", (left[0][1]["inst"].loc() if left else "%s:%d" % (fn.relfile, fn.line)),
+              ("header type %d: the call returns with has_received_pdus still false, a later PDU of this connection can still trigger the live downgrade" % left[0][0]) if left
+              else "%d header types: the flag is true on every return once a header has passed the length checks" % ncell,
+              key="C13.R2:slot", path=(flow.trace_lines(fn, left[0][1]["trace"]) if left else None))
     others = [i for i in vf.stores_to_field(pdb, "rtr_socket.has_received_pdus") if i.fn.name not in ("rtr_receive_pdu", "rtr_fsm_start", "rtr_init")]
     ctx.check(not others, "C13.R2", "flag-writers", "rtrlib/rtr", "written only by rtr_init, the CONNECTING arm and rtr_receive_pdu",
               key="C13.R2:writers")
